@@ -102,4 +102,21 @@ example : ∀ l ∈ [qAV, qBW, cmpBLit "V" .ne "W"], renameBLit sw2 l ∈ [qAV, 
   · right; exact ⟨"W", "V", by simp [renameBLit, renameLit, renameAtom, renameTerm, renameGuards, renameGuard, sw2, cmpBLit], by simp⟩
 end Example
 
+/-! non-vacuity of the executable check: `f :- p(A,S), p(B,S), A != B.` with the swap `A↔B` passes `symCheck` -/
+namespace C11ex
+open Proofs.C11check Proofs.C11sem Sem
+def atomL (n : String) (vs : List String) : BLit := .lit (.pos, .sym (.fn n (vs.map Term.var) false))
+set_option maxRecDepth 4000 in
+theorem check : symCheck [("A", "B")] "A" "B" (.lit (.pos, .sym (.fn "f" [] false)))
+    [atomL "p" ["A", "S"], atomL "p" ["B", "S"]] = true := by
+  simp [symCheck, involOk, members, swaps, symBody, symGlobals, symHead, globalsList, atomL, renameBLit, renameLit,
+    renameAtom, renameTerm, renameTerms, flipNe, blitMem, blitEqb, litEqb, atomEqb, termsEqb, termEqb, stdHeadGlobals,
+    bodyGlobals, blitGlobals, litVars, litTerms, Atom.terms, Term.vars, Head.vars, Head.terms, cmpBLit]
+example (P : Params) (htotal : ∀ x y, P.rel .ne x y ↔ (P.rel .lt x y ∨ P.rel .lt y x)) (pre post : Prog) :
+    StrongEq (stdParams P)
+      (pre ++ .rule 1 1 (.lit (.pos, .sym (.fn "f" [] false))) ([atomL "p" ["A", "S"], atomL "p" ["B", "S"]] ++ [cmpBLit "A" .ne "B"]) :: post)
+      (pre ++ .rule 1 1 (.lit (.pos, .sym (.fn "f" [] false))) ([atomL "p" ["A", "S"], atomL "p" ["B", "S"]] ++ [cmpBLit "A" .lt "B"]) :: post) :=
+  C11_check_strongeq P htotal [("A", "B")] pre post 1 1 "A" "B" _ _ check
+end C11ex
+
 end NgoVerif
